@@ -202,6 +202,8 @@ def kalman_bounded(vc):
     F = rng.normal(size=(N, N)) * 0.6
     x, P, Q = rng.normal(size=N) * 10, spd(N), spd(N, 0.1)
     dyn = _NS(propagate=lambda t0, tf, X, scheduled_events=None: F @ X)
+    # another estimate's filter, built first in the same process with the same dimension, alpha and beta but its own kappa / noise / resampling mode: a filter's tuning is its own
+    UnscentedKalmanFilter(2, 0.0, x.copy() + 1.0, P.copy() * 2.0, dyn, Q.copy() * 3.0, None, False, False, not resample, alpha, beta, kappa + 1.7)
     f = UnscentedKalmanFilter(1, 0.0, x.copy(), P.copy(), dyn, Q.copy(), None, False, False, resample, alpha, beta, kappa)
     f._debugChecks = lambda obs: None
     ok = {k: True for k in ("predict", "update", "psd", "noobs")}
